@@ -88,6 +88,9 @@ func budgetFor(prop, tier string) tierCfg {
 			c.budget = 20 * time.Minute
 		}
 	}
+	if (prop == "C09" || prop == "C11" || prop == "C12") && tier == "quick" {
+		c.budget = 90 * time.Second // long single runs (thousands of operations, fault enumeration): few runs per second
+	}
 	if v := os.Getenv("VERIF_BUDGET"); v != "" {
 		if s, err := strconv.Atoi(v); err == nil {
 			c.budget = time.Duration(s) * time.Second
